@@ -82,7 +82,7 @@ type gluePiece struct {
 	comment bool
 }
 
-var glueTextAtoms = []string{"a", "b", "<", ">", " ", "  ", "\t", "\n", "\r\n", "\n  ", "é", "à", "々", "x y", "<b>", "</b>", "w", "http://x.y", "voilà//fin", "a//b"}
+var glueTextAtoms = []string{"a", "b", "<", ">", " ", "  ", "\t", "\n", "\r\n", "\n  ", "é", "à", "々", "x y", "<b>", "</b>", "w", "http://x.y", "voilà//fin", "a//b", "//b", "//example.com/x.png", "//"}
 
 func directC15glue(g *G, rep *Report) {
 	n := g.N(2500, 60000)
@@ -107,9 +107,16 @@ func directC15glue(g *G, rep *Report) {
 				}
 				s := b.String()
 				// "//" directly after whitespace (or at the very start of a run that follows a tag) would BE a comment; keep text pieces comment-free
-				if strings.Contains(s, " //") || strings.Contains(s, "\t//") || strings.Contains(s, "\n//") || strings.HasPrefix(s, "//") || strings.Contains(s, "/*") {
+				// … except glued directly onto the "*/" of a block comment or the "}" of a tag: the character before
+				// the "//" is then not whitespace, so it is TEXT (http:/* host *///example.com)
+				gluedOK := strings.HasPrefix(s, "//") && len(pieces) > 0 &&
+					(pieces[len(pieces)-1].kind == "tag" || strings.HasSuffix(pieces[len(pieces)-1].src, "*/"))
+				if strings.Contains(s, " //") || strings.Contains(s, "\t//") || strings.Contains(s, "\n//") || (strings.HasPrefix(s, "//") && !gluedOK) || strings.Contains(s, "/*") {
 					k--
 					continue
+				}
+				if gluedOK {
+					rep.Distribution["text-starting-with-//-after-comment-or-tag"]++
 				}
 				pieces = append(pieces, gluePiece{src: s, kind: "text"})
 				lastText = true
